@@ -535,11 +535,15 @@ def selftest(ctx):
     probs, found, recs, skipped, dropped = pipeline(ctx, 30, 6, 6)
     res = judge(ctx, "clean", probs, recs, ["impl"])
     clean = [p for p in res.printed if p and p[0] == "FAIL"]
+    dirty = {p[1] for p in clean}          # records that fail already (known finding): left alone
     bad = []
     want = {}
     for r in recs:
         r = dict(r)
         if r["exc"]:
+            continue
+        if r["id"] in dirty:
+            bad.append(r)
             continue
         if r["edges"] and len(want) % 3 == 0:
             r["edges"] = r["edges"][1:]          # an ordering constraint is lost
@@ -552,7 +556,7 @@ def selftest(ctx):
             want[r["id"]] = "edge reversed"
         bad.append(r)
     res2 = judge(ctx, "corrupted", probs, bad, ["impl"])
-    flagged = {p[1] for p in res2.printed if p and p[0] == "FAIL"} - {p[1] for p in clean}
+    flagged = {p[1] for p in res2.printed if p and p[0] == "FAIL"} - dirty
     kinds = {}
     for i, k in want.items():
         kinds.setdefault(k, [0, 0])
